@@ -44,7 +44,7 @@ def run(ctx):
 
 
 # ------------------------------------------------------------------------- R14.1
-def r14_1(ctx, rep, snd, K):
+def r14_1(ctx, rep, snd, K, P="C14"):
     r = rep.rule("R14.1", "sender per-member decision equals the specified one for every ordering: "
                           "offered <=> sm > rm; from = 0 if (rg < sg and rm < sg) else rm; scheduled members skipped")
     rep.anchor("compute_delta", where(snd.fn))
@@ -73,11 +73,11 @@ def r14_1(ctx, rep, snd, K):
                 if offered and bad is None:
                     bad = (sg, sm, rg, rm, present, offered, frm, False, None, "scheduled")
     except ModelError as e:
-        rep.violation("C14/R14.1/" + e.key, e.msg, e.where)
+        rep.violation(P + "/R14.1/" + e.key, e.msg, e.where)
         return
     if bad:
         cls = classify_sender(bad)
-        rep.obligation(False, "C14/R14.1/sender-decision/" + cls,
+        rep.obligation(False, P + "/R14.1/sender-decision/" + cls,
                        "sender decision differs from the specified one: sender (gc,max)=(%d,%d), peer digest %s -> "
                        "offered=%s from=%s, expected offered=%s from=%s" % (
                            bad[0], bad[1], (bad[2], bad[3]) if bad[4] else "absent", bad[5], bad[6], bad[7], bad[8]),
@@ -266,7 +266,7 @@ def r14_2(ctx, rep, adm, app, K):
 
 
 # ------------------------------------------------------------------------- R14.3
-def r14_3(ctx, rep, snd, adm, app, K):
+def r14_3(ctx, rep, snd, adm, app, K, P="C14"):
     r = rep.rule("R14.3", "agreement: for every sender copy (sg,sm), receiver copy (rg,rm) and truncation point dm, the delta "
                           "the sender computes from the receiver's digest is applied (never refused as inapplicable / from "
                           "the future), is applied after reset exactly when rm < sg and rg < sg (then from = 0), and "
@@ -311,10 +311,10 @@ def r14_3(ctx, rep, snd, adm, app, K):
                                     if not strict:
                                         fails.setdefault("no-strict-advance", (sg, sm, rg, rm, frm, dm, s, (gv, mv)))
     except ModelError as e:
-        rep.violation("C14/R14.3/" + e.key, e.msg, e.where)
+        rep.violation(P + "/R14.3/" + e.key, e.msg, e.where)
         return
     except oe.NeedAtom as e:
-        rep.violation("C14/R14.3/opaque", "frontier after apply depends on %s" % sym.fmt(e.atom)[:120], where(app.fn))
+        rep.violation(P + "/R14.3/opaque", "frontier after apply depends on %s" % sym.fmt(e.atom)[:120], where(app.fn))
         return
     names = {"offered-iff-ahead": "sender ahead <=> member offered",
              "refused": "a non-empty delta computed from the receiver's own digest is refused",
@@ -324,7 +324,7 @@ def r14_3(ctx, rep, snd, adm, app, K):
              "no-strict-advance": "applying strictly increases (gc, max)"}
     for key, desc in names.items():
         w = fails.get(key)
-        rep.obligation(w is None, "C14/R14.3/" + key,
+        rep.obligation(w is None, P + "/R14.3/" + key,
                        "%s — violated for (sg,sm,rg,rm,from,dm,status..)=%s" % (desc, w), where(adm.fn), witness=list(w) if w else None,
                        evaluations=n // len(names), sample=desc + ": holds on all orderings")
     rep.count("orderings x truncation points", n)
